@@ -1,9 +1,11 @@
 (* extraction of the C17 executable model (Model/Number.v with the URL / e-mail tails of Model/C17Tails.v) and of the binary64 model of
    NumberSuffix::correct_suffix_for (Proofs/C17Float.v, Flocq's BinarySingleNaN: computational part only, the proof
    arguments are erased), and of the class / expected lints of texts with several ordinals (Model/C17Texts.v: run_multi);
+   and of the whole modelled Document::parse incl. the passes after
+   condense_dotted_initialisms (Model/C17Later.v: run_final_full = every token of the final document + the lints);
    ExtrOcamlBasic only *)
 Require Extraction.
 Require Import ExtrOcamlBasic.
-Require Import Base Overlap Suggestion Tables_number Number C17Tails C17Float C17Texts.
+Require Import Base Overlap Suggestion Tables_number Number C17Tails C17Float C17Texts C17Later.
 Extraction Language OCaml.
-Extraction "../ocaml/gen/c17_model.ml" run_lex_full run_doc_full ctx_ok render mkuni run_f64_digits run_f64_parts run_f64_special run_multi mkinst.
+Extraction "../ocaml/gen/c17_model.ml" run_lex_full run_doc_full ctx_ok render mkuni run_f64_digits run_f64_parts run_f64_special run_multi mkinst run_final_full.
